@@ -201,6 +201,55 @@ func getModel(dir string, vc *VC, timeoutS int) string {
 }
 
 // solveAll discharges obligations in parallel.
+// solveAllSplit discharges obligations; a failed conjunctive obligation is replaced by its conjuncts, solved one by one,
+// so that what is reported as failed is as specific as possible. Returns the final list.
+func (x *Exec) solveAllSplit(obls []*Obligation, dir string, timeoutS int, agree bool, par int) []*Obligation {
+	x.solveAll(obls, dir, timeoutS, agree, par)
+	var out, parts []*Obligation
+	idx := map[*Obligation][]*Obligation{}
+	for _, o := range obls {
+		if o.Split == nil || o.Result == nil || o.Result.Status == "unsat" || o.Kind == "canary" {
+			continue
+		}
+		for i, c := range o.Split {
+			lab := fmt.Sprintf("%s/%d", o.label, i+1)
+			name := fmt.Sprintf("%s#%s[%s]", o.Func, o.Kind, lab)
+			if o.site != "" {
+				name += "@" + o.site
+			}
+			if k := strings.LastIndex(o.Name, "~"); k >= 0 {
+				name += o.Name[k:]
+			}
+			p := &Obligation{Name: name, Func: o.Func, Kind: o.Kind, Facts: o.Facts, PC: o.PC, Goal: c, Note: o.Note, Props: o.Props}
+			idx[o] = append(idx[o], p)
+			parts = append(parts, p)
+		}
+	}
+	if len(parts) > 0 {
+		x.solveAll(parts, dir, timeoutS, agree, par)
+	}
+	for _, o := range obls {
+		if ps, ok := idx[o]; ok {
+			allOK := true
+			for _, p := range ps {
+				if p.Result.Status != "unsat" {
+					allOK = false
+				}
+			}
+			if allOK {
+				// every conjunct discharges on its own: the obligation holds (the solvers only failed on the conjunction)
+				o.Result = &SolveResult{Status: "unsat", Solver: "split", Seconds: 0}
+				out = append(out, o)
+				continue
+			}
+			out = append(out, ps...)
+			continue
+		}
+		out = append(out, o)
+	}
+	return out
+}
+
 func (x *Exec) solveAll(obls []*Obligation, dir string, timeoutS int, agree bool, par int) {
 	var wg sync.WaitGroup
 	sem := make(chan struct{}, par)
